@@ -15,7 +15,7 @@ import (
 
 func main() {
 	r := evid.New("C05", "exploration")
-	r.Rule("seeded L2 scenarios: chain of 1100-2600 blocks (classes: just above one batch, around 2000, 2005-2600), 1-3 peers honest for headers/cfheaders/cfcheckpt (client synced to the true chain; precondition: committed filter headers == ground truth), PersistToDisk on/off, default or 700-byte filter cache, optional background sender of unsolicited cfilter messages at random times, optional client restart on the same data directory. Per round each peer gets a mutation of its getcfilters answer {honest, shuffle, reverse, dup-all/some/target, omit-target/others/some, silence, wrong-type-all, extra (valid+corrupt filters of blocks before/after the range), corrupt at position {target,first,last,middle} by {bitflip, truncate, garbage, empty, extend, nchange, valid filter of neighbouring / distant block, right filter under hash outside / inside the range / foreign hash, wrong type byte} replacing the good entry or sent before/after it}, optionally shuffled/reversed; patterns all-same-adversary / one-honest mixture / different adversaries / honest. Calls: real ChainService.GetCFilter at block 1, 2, tip, tip-1, 999-1002, 1999-2002, tip-1001..tip-998, random, genesis, unknown hash; batching none / forward / reverse, MaxBatchSize {1-3, 5-60, 100-400, 999, >=1000, absent}, NumRetries {1,2,3,default}; sequential, repeated (cache path), 2-4 concurrent with overlapping ranges, after restart (database path). ORACLE 1: every returned filter f for height h satisfies MakeHeaderForFilter(f, committed[h-1]) == committed[h] (committed read from RegFilterHeaders at check time) and equals the generator's filter bytes; (nil,nil) is a violation. ORACLE 2: after every round every FilterCache entry, and after Stop (before closing the DB) every FilterDB entry (FetchFilter for every chain block + raw bucket key enumeration) verifies the same way and is keyed by the block it belongs to. ORACLE 3: a call returning a filter although no peer ever put a verifiable filter for that block on the wire (peer-side record) is a violation; failures despite a delivery are only counted. One evaluation = one scenario; distinct = call shapes (mutation kinds that actually answered, position class, batching class, boundary class, persist, concurrent, outcome) marked by scenarios whose all-honest baseline fetch succeeded; a scenario is non-trivial when at least one filter was fetched from the network under a non-honest answer. RE-ORG FAMILY (same oracles; scenarios appended to the list: 2 seed-independent ones, then seeded ones on chains of 90-250 / 300-800 / 998-1003 blocks with 2-6 phases each; plus one phase woven in after a random round of every mutation scenario that has neither the ≈30 s call nor the lag phase): a phase = the honest chain grows by 0-3 fresh blocks (announced, adopted), 0-2 rounds fetch filters at/near the tip (unbatched / reverse / forward batches, honest or completing mutations; a fresh block's filter can only come from the network), then the last 1-6 blocks are replaced by a heavier branch of equal or greater height (normal or fast pace; announced by connecting headers or inv by every peer; the scenario waits until BestBlock reports the new tip, i.e. block AND filter headers of the new branch are committed, and checks them against ground truth), then 1-4 rounds call GetCFilter for blocks of the new branch, the first mostly with exactly the shape (height, batching, cap) of the last call before the re-org, under answers {honest; stale-branch = the valid filters of the REPLACED blocks at the same heights under the new blocks' hashes, for the whole range or only the target, alone or next to the good entry; one honest peer among stale ones; any of the mutations above}, optionally followed by the same call under honest answers; several phases in a row, with or without fetches in between, on a fresh or a restarted client. Cache and database entries keyed by blocks of the CURRENT committed chain must verify against the committed headers; entries keyed by replaced blocks (verified when their block was committed) are only compared with that block's true filter; keys that never were a chain block are foreign. LAG FAMILY (scenarios appended after the re-org family: 2 seed-independent ones, then seeded ones on chains of 70-250 / 300-800 / 997-1002 blocks; the lag phase of every fourth mutation scenario draws its answers from the same kinds): in 1-3 steps the peers' chain grows by 1-2 blocks, or its last 1-4 blocks (blocks without committed filter header first, then committed ones, whose filter headers are rolled back with them) are replaced by a heavier branch, while every peer serves the new block headers and WITHHOLDS their filter headers, so the client's block-header tip is 1-5 blocks above its filter-header tip (checked: block tip = the new tip, filter tip unchanged); then GetCFilter is called for the 1st..Lth block above the filter-header tip, unbatched / reverse batch (cap >= distance, reaching down into the committed part; uncapped) / forward batch, while the peers answer {honestly = the block's true filter; lag-push = true filters of all uncommitted blocks pushed along; lag-shift = the entry naming height x carries the GENUINE filter of block x-j with j = distance of the target to the filter-header tip (the filter of the last block that has a committed header) / j = 1 / j = lag / 1 < j < distance / j > distance, applied to the target only, to every uncommitted block or to the whole range (reverse batch moved down by j), replacing the true entry or sent before/after it, optionally with the push, shuffled or reversed; the block asked for is named in every answer}; every peer the same answer, different ones, one honest peer among them (two tries). ORACLE (unchanged): a GetCFilter for a block whose filter header is not committed (read from RegFilterHeaders after the call) must fail; no FilterCache entry (checked after every call) and no FilterDB entry (after Stop) may be keyed by a current-chain block above the committed filter-header tip; entries for the blocks below it must verify against the committed headers as always")
+	baseRule := ("seeded L2 scenarios: chain of 1100-2600 blocks (classes: just above one batch, around 2000, 2005-2600), 1-3 peers honest for headers/cfheaders/cfcheckpt (client synced to the true chain; precondition: committed filter headers == ground truth), PersistToDisk on/off, default or 700-byte filter cache, optional background sender of unsolicited cfilter messages at random times, optional client restart on the same data directory. Per round each peer gets a mutation of its getcfilters answer {honest, shuffle, reverse, dup-all/some/target, omit-target/others/some, silence, wrong-type-all, extra (valid+corrupt filters of blocks before/after the range), corrupt at position {target,first,last,middle} by {bitflip, truncate, garbage, empty, extend, nchange, valid filter of neighbouring / distant block, right filter under hash outside / inside the range / foreign hash, wrong type byte} replacing the good entry or sent before/after it}, optionally shuffled/reversed; patterns all-same-adversary / one-honest mixture / different adversaries / honest. Calls: real ChainService.GetCFilter at block 1, 2, tip, tip-1, 999-1002, 1999-2002, tip-1001..tip-998, random, genesis, unknown hash; batching none / forward / reverse, MaxBatchSize {1-3, 5-60, 100-400, 999, >=1000, absent}, NumRetries {1,2,3,default}; sequential, repeated (cache path), 2-4 concurrent with overlapping ranges, after restart (database path). ORACLE 1: every returned filter f for height h satisfies MakeHeaderForFilter(f, committed[h-1]) == committed[h] (committed read from RegFilterHeaders at check time) and equals the generator's filter bytes; (nil,nil) is a violation. ORACLE 2: after every round every FilterCache entry, and after Stop (before closing the DB) every FilterDB entry (FetchFilter for every chain block + raw bucket key enumeration) verifies the same way and is keyed by the block it belongs to. ORACLE 3: a call returning a filter although no peer ever put a verifiable filter for that block on the wire (peer-side record) is a violation; failures despite a delivery are only counted. One evaluation = one scenario; distinct = call shapes (mutation kinds that actually answered, position class, batching class, boundary class, persist, concurrent, outcome) marked by scenarios whose all-honest baseline fetch succeeded; a scenario is non-trivial when at least one filter was fetched from the network under a non-honest answer. RE-ORG FAMILY (same oracles; scenarios appended to the list: 2 seed-independent ones, then seeded ones on chains of 90-250 / 300-800 / 998-1003 blocks with 2-6 phases each; plus one phase woven in after a random round of every mutation scenario that has neither the ≈30 s call nor the lag phase): a phase = the honest chain grows by 0-3 fresh blocks (announced, adopted), 0-2 rounds fetch filters at/near the tip (unbatched / reverse / forward batches, honest or completing mutations; a fresh block's filter can only come from the network), then the last 1-6 blocks are replaced by a heavier branch of equal or greater height (normal or fast pace; announced by connecting headers or inv by every peer; the scenario waits until BestBlock reports the new tip, i.e. block AND filter headers of the new branch are committed, and checks them against ground truth), then 1-4 rounds call GetCFilter for blocks of the new branch, the first mostly with exactly the shape (height, batching, cap) of the last call before the re-org, under answers {honest; stale-branch = the valid filters of the REPLACED blocks at the same heights under the new blocks' hashes, for the whole range or only the target, alone or next to the good entry; one honest peer among stale ones; any of the mutations above}, optionally followed by the same call under honest answers; several phases in a row, with or without fetches in between, on a fresh or a restarted client. Cache and database entries keyed by blocks of the CURRENT committed chain must verify against the committed headers; entries keyed by replaced blocks (verified when their block was committed) are only compared with that block's true filter; keys that never were a chain block are foreign. LAG FAMILY (scenarios appended after the re-org family: 2 seed-independent ones, then seeded ones on chains of 70-250 / 300-800 / 997-1002 blocks; the lag phase of every fourth mutation scenario draws its answers from the same kinds): in 1-3 steps the peers' chain grows by 1-2 blocks, or its last 1-4 blocks (blocks without committed filter header first, then committed ones, whose filter headers are rolled back with them) are replaced by a heavier branch, while every peer serves the new block headers and WITHHOLDS their filter headers, so the client's block-header tip is 1-5 blocks above its filter-header tip (checked: block tip = the new tip, filter tip unchanged); then GetCFilter is called for the 1st..Lth block above the filter-header tip, unbatched / reverse batch (cap >= distance, reaching down into the committed part; uncapped) / forward batch, while the peers answer {honestly = the block's true filter; lag-push = true filters of all uncommitted blocks pushed along; lag-shift = the entry naming height x carries the GENUINE filter of block x-j with j = distance of the target to the filter-header tip (the filter of the last block that has a committed header) / j = 1 / j = lag / 1 < j < distance / j > distance, applied to the target only, to every uncommitted block or to the whole range (reverse batch moved down by j), replacing the true entry or sent before/after it, optionally with the push, shuffled or reversed; the block asked for is named in every answer}; every peer the same answer, different ones, one honest peer among them (two tries). ORACLE (unchanged): a GetCFilter for a block whose filter header is not committed (read from RegFilterHeaders after the call) must fail; no FilterCache entry (checked after every call) and no FilterDB entry (after Stop) may be keyed by a current-chain block above the committed filter-header tip; entries for the blocks below it must verify against the committed headers as always")
 	r.Assume("the simulated peers implement the protocol subset of DESIGN appendix B; client knobs QueryTimeout etc. are shortened (exported configuration); the per-call NumRetries option (public QueryOption) keeps forced worker timeouts affordable; the raw enumeration of the filter bucket uses the bucket names filter-store/regular of filterdb")
 	n := r.Pick(14, 200)
 	// The re-org family: c05.NumFixedReorg seed-independent scenarios first,
@@ -23,14 +23,36 @@ func main() {
 	nReorg := c05.NumFixedReorg + r.Pick(4, 60)
 	// The lag family: c05.NumFixedLag seed-independent scenarios, then seeded ones.
 	nLag := c05.NumFixedLag + r.Pick(4, 50)
+	// The header-reset family: c05.NumFixedReset seed-independent scenarios, then seeded ones.
+	nReset := c05.NumFixedReset + r.Pick(5, 40)
 	minDistinct := r.Pick(60, 600)
-	r.Rule("RESOURCE monitor (all families; aimed at the lag family, whose unbatched / forward calls reach up to 4 blocks above " +
+	resetRule := ("HEADER-RESET FAMILY (scenarios appended after the lag family: 1 seed-independent one, then seeded ones; same oracle in kind): " +
+		"the committed filter headers CHANGE underneath filters persisted earlier. Generation 1 (PersistToDisk, default or 700-byte cache): " +
+		"the client's ONLY peer is a consistent filter liar (false filter hash + matching false filter for one block L: an output script " +
+		"left out / an element added; L in the middle, at block 1-2, at tip-1 or the tip of a 90-250 block chain), so its false filter " +
+		"headers are committed from L on (the listed lone-liar finding, not judged here); 3-7 GetCFilter calls (L as target or inside a " +
+		"batch, first or later, or not at all; blocks above / below; unbatched, forward, reverse, capped 1-52 or uncapped; repeats) are " +
+		"judged against the headers committed THEN; the batch writer drains; Stop; every database entry is read. Generation 2: restart on " +
+		"the same directory with Config.AssertFilterHeader{a, the TRUE filter header at a} and 1-2 honest peers only; a = L / between L " +
+		"and the tip / the tip (the stored header differs: the client throws its filter header store away, observed as filter tip 0 " +
+		"between NewChainService and Start, and re-syncs; precondition: committed == ground truth), a < L (assertion holds, nothing " +
+		"reset) or a above the stored tip (nothing to compare); 4-8 GetCFilter calls for L (mostly first), for blocks persisted in " +
+		"generation 1 (database hits: the memory cache is empty after a restart) and for others (network; batches may fetch L anew). " +
+		"ORACLE: every filter returned (source cache / db / net decided by probing cache and database before the call and counting " +
+		"getcfilters on the wire during it), every cache entry after every call, and after Stop every database entry FetchFilter still " +
+		"serves satisfies MakeHeaderForFilter(f, committed[h-1]) == committed[h] with committed read from RegFilterHeaders at that time. " +
+		"Fixed scenario 0: chain 150, omit-script lie at L = 60, generation 1 fetches 60 (network, cache), batches around it, 100 and the " +
+		"tip; generation 2 asserts height 100 and asks for 60 unbatched first. A scenario is non-trivial when generation 2 served a " +
+		"database hit of a generation-1 filter while the liar's headers had been committed.")
+	resourceRule := ("RESOURCE monitor (all families; aimed at the lag family, whose unbatched / forward calls reach up to 4 blocks above " +
 		"the filter-header tip): the peak resident memory of every scenario's client process, as accounted by the kernel " +
 		"(rusage of the child), must stay below 2500 MiB (a scenario needs 100-300 MiB). A call the client cannot serve must " +
 		"FAIL (statement); a client that touches gigabytes on the way is killed or thrashes wherever memory is limited, and " +
 		"then the call neither fails nor returns. The largest peak seen is reported as peak_child_rss_mib.")
+	// Rule REPLACES the text: one call with everything.
+	r.Rule(baseRule + ". " + resetRule + ". " + resourceRule)
 	l2.RSSLimitMB = 2500
-	l2.RunScenarios(r, n+nReorg+nLag, 400*time.Second, c05.Scenarios(r.Quick(), n, nReorg))
+	l2.RunScenarios(r, n+nReorg+nLag+nReset, 400*time.Second, c05.ScenariosAll(r.Quick(), n, nReorg, nLag))
 	r.Set("peak_child_rss_mib", l2.PeakChildRSSMB())
 	r.Finish(minDistinct)
 }
